@@ -47,12 +47,55 @@ Record deviations := {
 Definition doc_flags : deviations := {| exact_name_first := false; export_spread_conflicts_error := false |}.
 Definition impl_flags_c04 : deviations := {| exact_name_first := true; export_spread_conflicts_error := true |}.
 
+(** * the binding rules of a [new] expression, for any kind of value
+
+    For each import [i] of the instantiated package: bound by the explicit (named or inferred)
+    argument of that name; else by the first spread instance, in spread order, that exports [i];
+    else implicitly imported when [...] is present; else missing. *)
+Fixpoint mem (x : str) (l : list str) : bool :=
+  match l with [] => false | y :: r => str_eqb y x || mem x r end.
+
+Section Binding.
+  Context {V : Type}.
+  Record spread_src := { sp_val : V; sp_exports : list str }.
+  Inductive binding := BExplicit (v : V) | BSpread (sp : spread_src) | BImplicit | BMissing.
+
+  Definition first_spread (spreads : list spread_src) (i : str) : option spread_src :=
+    find (fun sp => mem i (sp_exports sp)) spreads.
+
+  Definition bind_import (explicit : list (str * V)) (spreads : list spread_src) (fill : bool) (i : str)
+    : binding :=
+    match im_get explicit i with
+    | Some v => BExplicit v
+    | None =>
+        match first_spread spreads i with
+        | Some sp => BSpread sp
+        | None => if fill then BImplicit else BMissing
+        end
+    end.
+
+  (** a spread is effective when it binds at least one import: one that no explicit argument and no
+      earlier spread provides *)
+  Definition spread_effective (imports : list str) (explicit : list (str * V))
+             (before : list spread_src) (sp : spread_src) : bool :=
+    existsb (fun i => negb (has_key explicit i) && mem i (sp_exports sp)
+                      && negb (existsb (fun q => mem i (sp_exports q)) before)) imports.
+End Binding.
+Arguments spread_src : clear implicits.
+Arguments binding : clear implicits.
+
 (** * values and compositions *)
 Inductive sval := VImport (nm : str) | VInst (k : nat) | VAccess (v : sval) (e : str).
 
-Inductive binding := BArg (v : sval) | BImplicit | BMissing.
+(** the value a binding passes for import [i] *)
+Definition binding_value (i : str) (b : binding sval) : option sval :=
+  match b with
+  | BExplicit v => Some v
+  | BSpread sp => Some (VAccess (sp_val sp) i)
+  | BImplicit | BMissing => None
+  end.
 
-Record sinst := { si_pkg : nat; si_bindings : list (str * binding) }.
+Record sinst := { si_pkg : nat; si_bindings : list (str * binding sval) }.
 
 Record senv := {
   se_names : list (str * sval);
@@ -85,9 +128,6 @@ Inductive illformed :=
   | IOutOfScope.
 
 (** * names *)
-Fixpoint mem (x : str) (l : list str) : bool :=
-  match l with [] => false | y :: r => str_eqb y x || mem x r end.
-
 Definition until_at (s : str) : str :=
   (fix go (s : str) := match s with [] => [] | c :: r => if c =? c_at then [] else c :: go r end) s.
 
@@ -160,33 +200,6 @@ Section Spec.
   Definition val_source (v : sval) : option str :=
     match v with VImport n => Some n | VAccess _ e => Some e | VInst _ => None end.
 
-  (** * the binding rules of a [new] expression *)
-  Record spread_src := { sp_val : sval; sp_exports : list str }.
-
-  Definition first_spread (spreads : list spread_src) (i : str) : option sval :=
-    match find (fun sp => mem i (sp_exports sp)) spreads with
-    | Some sp => Some (VAccess (sp_val sp) i)
-    | None => None
-    end.
-
-  Definition bind_import (explicit : list (str * sval)) (spreads : list spread_src) (fill : bool) (i : str)
-    : binding :=
-    match im_get explicit i with
-    | Some v => BArg v
-    | None =>
-        match first_spread spreads i with
-        | Some v => BArg v
-        | None => if fill then BImplicit else BMissing
-        end
-    end.
-
-  (** a spread is effective when it binds at least one import: one that no explicit argument and no
-      earlier spread provides *)
-  Definition spread_effective (imports : list str) (explicit : list (str * sval))
-             (before : list spread_src) (sp : spread_src) : bool :=
-    existsb (fun i => negb (has_key explicit i) && mem i (sp_exports sp)
-                      && negb (existsb (fun q => mem i (sp_exports q)) before)) imports.
-
   (** * reference evaluation *)
   Definition S (A : Type) := senv -> (A * senv) + illformed.
   Definition sret {A} (x : A) : S A := fun e => inl (x, e).
@@ -258,7 +271,7 @@ Section Spec.
     end.
 
   Fixpoint spread_args (imports : list str) (explicit : list (str * sval)) (args : list inst_arg)
-           (acc : list spread_src) : S (list spread_src) :=
+           (acc : list (spread_src sval)) : S (list (spread_src sval)) :=
     match args with
     | [] => sret acc
     | ASpread id :: r =>
@@ -305,7 +318,7 @@ Section Spec.
         spreads <~ spread_args names explicit args [] ;;
         let from_spreads :=
           flat_map (fun i => if has_key explicit i then [] else
-                             match first_spread spreads i with Some v => [(i, v)] | None => [] end) names in
+                             match first_spread spreads i with Some sp => [(i, VAccess (sp_val sp) i)] | None => [] end) names in
         _ <~ check_args imports (explicit ++ from_spreads) ;;
         let bs := map (fun i => (i, bind_import explicit spreads fill i)) names in
         match find (fun b => match snd b with BMissing => true | _ => false end) bs with
